@@ -144,6 +144,62 @@ func collLen(proto int, n int) []byte {
 
 // EncodeValue returns the specification's serialization of v (nil = null).
 func EncodeValue(t *Type, v Val, proto int) ([]byte, error) {
+	b, err := encodeValue(t, v, proto)
+	if err == nil && proto < 3 {
+		// protocol 1/2 frame collection sizes and element lengths as unsigned shorts: larger ones are not expressible
+		if err := shortFramingFits(t, v, proto); err != nil {
+			return nil, err
+		}
+	}
+	return b, err
+}
+
+func shortFramingFits(t *Type, v Val, proto int) error {
+	if v.Null {
+		return nil
+	}
+	switch t.ID {
+	case TList, TSet, TMap:
+		if len(v.Elems) > 65535 {
+			return fmt.Errorf("cqlref: %d elements do not fit the [short] count of protocol %d", len(v.Elems), proto)
+		}
+		for i := range v.Elems {
+			parts := []struct {
+				t *Type
+				v Val
+			}{{t.Elem, v.Elems[i]}}
+			if t.ID == TMap {
+				parts = append(parts, struct {
+					t *Type
+					v Val
+				}{t.Key, v.Keys[i]})
+			}
+			for _, p := range parts {
+				eb, err := encodeValue(p.t, p.v, proto)
+				if err != nil {
+					return err
+				}
+				if len(eb) > 65535 {
+					return fmt.Errorf("cqlref: an element of %d bytes does not fit the [short] length of protocol %d", len(eb), proto)
+				}
+				if err := shortFramingFits(p.t, p.v, proto); err != nil {
+					return err
+				}
+			}
+		}
+	case TTuple, TUDT:
+		for i := range v.Elems {
+			if i < len(t.Elems) {
+				if err := shortFramingFits(t.Elems[i], v.Elems[i], proto); err != nil {
+					return err
+				}
+			}
+		}
+	}
+	return nil
+}
+
+func encodeValue(t *Type, v Val, proto int) ([]byte, error) {
 	if v.Null {
 		return nil, nil
 	}
